@@ -113,6 +113,8 @@ def declare(t, c, default):
         default = None
     if t in ("Selector", "ListSelector"):
         kw["objects"] = {"strs": ["a", "b"], "ints": [1, 2], "mixed": [1, "a", 1.5], "dictints": {"one": 1, "two": 2}, "empty": []}[c["objs"]]
+    if t == "Selector" and not c.get("cos", True):
+        kw["check_on_set"] = False
     if t == "ClassSelector":
         kw["class_"] = {"int": int, "str": str, "float": float, "intstr": (int, str), "bool": bool, "list": list, "dict": dict}[c["cls"]]
     if c.get("dn"):
